@@ -51,7 +51,7 @@ CHECKS = {
    note="trusted: measurement-history and recency models; golang-lru is not instrumented (its eviction callback runs after the library releases its own lock at the pinned version - checked at start-up, with a suppress path otherwise); ages within 1 ms above a lifetime are don't-cares; cache hits are never demanded; an auxiliary free-running stress run under the race detector (capacity oracle at quiescent ends, statistical) covers switches inside critical sections, which the lock-level scheduler does not produce",
    tech=TECH + " (simulated clock, history enumeration, lock-level scheduler with bounded-preemption enumeration, reference models)"),
  "C19": dict(cat="exploration", ref="5 C19",
-   text="generated TOML configurations (every optional key set / unset / zero / malformed, list entries incl. malformed CIDRs and regular expressions, the shipped app_config.toml verbatim) and subnet files through the real ParseConfig / NewRegistrationManager / liveness New; for accepted ones: three epochs of every stats module's PrintAndReset with and without traffic, a sweep, and reload sequences of length <= 4 mixing valid, malformed and unreadable files; oracles: no panic, every list entry enforced (dropped entries detected by probing the intended range), reload differential against a fresh manager (failed part unchanged, successful part replaced); single reloads and one-key alternatives on the shipped config are enumerated",
+   text="generated TOML configurations (every optional key set / unset / zero / malformed, list entries incl. malformed CIDRs and regular expressions, the shipped app_config.toml verbatim) and subnet files through the real ParseConfig / NewRegistrationManager / liveness New; for accepted ones: three epochs of every stats module's PrintAndReset with and without traffic, a sweep, and reload sequences of length <= 4 mixing valid, malformed and unreadable files; oracles: no panic, every list entry enforced (dropped entries detected by probing the intended range), reload differential against a fresh manager (failed part unchanged, successful part replaced); single reloads and one-key alternatives on the shipped config are enumerated; the scenario runs as one scheduler task (leaked locks are deadlock verdicts), station goroutine panics are verdicts, client library versions vary in traffic, the GeoIP database must be usable after every reload",
    note="the SIGHUP glue of cmd/application/main.go is re-implemented in 7 harness lines; connManager's stats module and GeoIP databases are not exercised; a panic or exit during the INITIAL load counts as a failed load",
    tech=TECH + " (reload / file-fault sequences under the simulated clock, differential probes, panic monitor)"),
  "C20": dict(cat="fault_enumeration", ref="5 C20", engine="ptracefi",
@@ -59,15 +59,15 @@ CHECKS = {
    note="trusted: the ptrace tracer's syscall classification (x86-64), determinism of the child's file-system syscall sequence (verified per sequence by three reference runs); power loss / page-cache durability is not modelled (the property speaks of process crash, kill or write failure)",
    tech=TECH + " (crash-point and syscall-error enumeration on a real process via ptrace)"),
  "C09": dict(cat="exploration", ref="5 C09",
-   text="lock-level scheduler over pkg/station/lib: every lock operation, liveness probe and resolver lookup is a scheduling point; every schedule with <= 2 preemptions is enumerated for three small scenarios (duplicate ingest, same identifier with acceptable + forbidden covert, ingest vs sweep vs lookup) and seven scenarios (plus overload, shutdown with idle / busy input, reload) are sampled; oracles: one New per lifetime, visibility only after the registration's own admission, no lost regCount update, map bijection, no panic, deadlock from the wait-for graph, dropped == offered - accepted with a non-blocking distributor, bounded shutdown, porcupine linearizability of ingest histories; the data-race clause is covered by an auxiliary -race run (400 iterations in the quick tier, 3200 in the thorough tier)",
+   text="lock-level scheduler over pkg/station/lib: every lock operation, liveness probe and resolver lookup is a scheduling point; every schedule with <= 2 preemptions is enumerated for three small scenarios (duplicate ingest, same identifier with acceptable + forbidden covert, ingest vs sweep vs lookup) and seven scenarios (plus overload, shutdown with idle / busy input, reload) are sampled; oracles: one New per lifetime, visibility only after the registration's own admission, no lost regCount update, map bijection, no panic, deadlock from the wait-for graph, dropped == offered - accepted with a non-blocking distributor, bounded shutdown, porcupine linearizability of ingest histories; the data-race clause is covered by an auxiliary -race run (400 iterations in the quick tier, 3200 in the thorough tier); scheduling points also right after every release; stop requests during pool start-up and with registrations queued behind a large pool; panics of pipeline goroutines are verdicts; auxiliary race run over roomy and four-address phantom subnets",
    note="code between two lock operations runs atomically; third-party code is not instrumented; the auxiliary race run is statistical and outside the deterministic core (reported separately in the evidence); one known finding (unsynchronised OnReload)",
    tech=TECH + " (lock-level cooperative scheduler with emulated RWMutex, bounded-preemption enumeration + seeded search, porcupine; auxiliary race-detector stress)"),
  "C10": dict(cat="exploration", ref="5 C10",
-   text="admitted registrations over every transport, both families, registrant forms (IPv4, 16-byte v4-mapped, IPv6, absent) and registrar overrides are driven through the real station; the real sendToDetector / clearDetector publish through a real go-redis client over a simulated connection into a RESP stub feeding a Go port of the detector's acceptance rules and session table; every payload must be accepted, describe its registration, request 10 min / 6 h; what the station would still match must be live in the model at every checked instant; Cleanup must empty the table",
+   text="admitted registrations over every transport, both families, registrant forms (IPv4, 16-byte v4-mapped, IPv6, absent) and registrar overrides are driven through the real station; the real sendToDetector / clearDetector publish through a real go-redis client over a simulated connection into a RESP stub feeding a Go port of the detector's acceptance rules and session table; every payload must be accepted, describe its registration, request 10 min / 6 h; what the station would still match must be live in the model at every checked instant; Cleanup must empty the table; repeats of registrations, a UDP stand-in transport with old client library versions, a stop request while a worker is probing (main()-like stop sequence), a post-sweep clause (what the station still tracks must be live in the detector), a station crash is a verdict",
    note="trusted: the < 100-line Go port of src/sessions.rs (the Rust detector cannot be built here); no loss on the detector channel; expired-not-yet-swept registrations are don't-cares; message contents are sampled",
    tech=TECH + " (real publisher + redis client over simulated transport, executable detector model, simulated clock for lifetimes and restart)"),
  "C12": dict(cat="exploration", ref="5 C12",
-   text="generated bidirectional requests (all transports / params / families / library versions, forged response and signature fields, overrides allowed or disabled) x registrar configurations (authenticated or not, parameter override sets, weighted subnet overrides, exclusions, percentages) x subnet files through the real RegProcessor; the forwarded bytes reach 1-2 real station parsers through a channel that duplicates, delays and reorders; three views (client, forwarded, station) must agree; a statistical sub-scenario checks that every non-zero-weight override subnet is used (miss probability < 1e-12)",
+   text="generated bidirectional requests (all transports / params / families / library versions, forged response and signature fields, overrides allowed or disabled) x registrar configurations (authenticated or not, parameter override sets, weighted subnet overrides, exclusions, percentages) x subnet files through the real RegProcessor; the forwarded bytes reach 1-2 real station parsers through a channel that duplicates, delays and reorders; three views (client, forwarded, station) must agree; a statistical sub-scenario checks that every non-zero-weight override subnet is used (miss probability < 1e-12); the unidirectional entry point with forged response fields and claimed sources; the scenario runs as one scheduler task (a leaked lock is a deadlock verdict)",
    note="trusted: the ~40-line restatement of how the client library applies a RegistrationResponse around the real ClientTransports; the request/configuration space is sampled; the station never verifies the response signature itself (reported, not judged: no sentence of the property licenses an oracle for it)",
    tech=TECH + " (three-party agreement registrar -> faulty channel -> stations, seeded search, statistical clause with stated miss probability)"),
  "C13": dict(cat="exploration", ref="5 C13",
